@@ -151,3 +151,93 @@ for _attr, _table, _np in [("is_special", T_special, False), ("is_private", T_pr
                            ("is_exported", T_exported, True), ("is_wildcard_exposed", T_wildcard, True),
                            ("is_public", T_public, False)]:
     contract("C01", f"table.{_attr}", [MIX + _attr], replay="replay_visibility")(_table_contract(_attr, _table, _np))
+
+
+# =========================================================================== Part 2: visitor handlers (ghost event traces)
+from specs import visitorfx as VF  # noqa: E402
+
+VS = VF.VS
+TRUSTED_BASE += [
+    "visitor handlers: extensions.call, set_member (C16), safe_get_* (C03), _get_docstring and the recursive visit are taken by contract and recorded as ghost "
+    "events; ast nodes satisfy the CPython ast invariants (lineno <= end_lineno, decorator_list / body / orelse are lists)",
+]
+STR_OF = z3.Function("STR_OF_EXPR", IntS, StrS)
+
+
+def install_expr_str(P):
+    P.attr_hooks[("ExprValue", "__str__")] = lambda P_, o: SStr(STR_OF(o.ident))
+
+
+@contract("C01", "visitor.visit_if.guard_discipline", [VS + "visit_if"], floor=3, replay="replay_visitor")
+def c_visit_if(P):
+    """Definitions in the body of `if TYPE_CHECKING:` (module / class level) are type-guarded, those in its else branch and after it are not
+    (unless an enclosing block already is): test/body under old|tc, orelse under old, flag restored on exit, every child visited once in order."""
+    install_expr_str(P)
+    v, cur, ev, info = VF.mk_visitor(P)
+    G0 = info["G0"]
+    pk = z3.Int("if_parent_cls")
+    parent_classes = ["ast.Module", "ast.ClassDef", "ast.If", "ast.FunctionDef", "ast.Try", "ast.With"]
+    P.assume(z3.And(pk >= 0, pk < len(parent_classes)))
+    test = VF.ast_node(P, "ast.Name", "test")
+    BODY, ORELSE = z3.Function("BODY_STMT", IntS, IntS), z3.Function("ORELSE_STMT", IntS, IntS)
+    def mk_body(i):
+        # distinct statements are distinct objects (instantiated per accessed element: quantifier-free)
+        P.assume(z3.And(BODY(zint(i)) != ORELSE(0), BODY(zint(i)) != test.ident))
+        return SObj("ast.stmt", {"slot": "body", "index": SInt(zint(i))}, ident=BODY(zint(i)), frozen=True)
+
+    def mk_orelse(i):
+        P.assume(z3.And(z3.Implies(zint(i) != 0, ORELSE(zint(i)) != ORELSE(0)), ORELSE(zint(i)) != test.ident))
+        return SObj("ast.stmt", {"slot": "orelse", "index": SInt(zint(i))}, ident=ORELSE(zint(i)), frozen=True)
+    body = sym_seq(P, "body", mk_body, minlen=1)
+    orelse = sym_seq(P, "orelse", mk_orelse)
+    node = VF.ast_node(P, "ast.If", "ifnode", test=test, body=body, orelse=orelse, parent=SObj(SCls(parent_classes, pk), {}, ident=z3.Int("if_parent_id"), frozen=True))
+    nb, no = zint(body.len), zint(orelse.len)
+    cond_fail = z3.Function("condition_fails", IntS, BoolS)(test.ident)
+    cond_str = STR_OF(z3.Function("condition_expr", IntS, IntS)(test.ident))
+    tc = z3.And(z3.Or(pk == 0, pk == 1), z3.Not(cond_fail), z3.Or(cond_str == z3.StringVal("typing.TYPE_CHECKING"), cond_str == z3.StringVal("TYPE_CHECKING")))
+    P.witness.update(parent_class=SInt(pk), already_guarded=SBool(G0), condition=SStr(cond_str), condition_fails=SBool(cond_fail), n_orelse=orelse.len, n_body=body.len)
+    P.expects["clause"] = "visit_if"
+    children = P.seq_concat(P.seq_concat([test], body), orelse)     # contract of ast_children for ast.If: _fields order test, body, orelse
+    P.opaque_hooks["_griffe.agents.visitor:ast_children"] = lambda P_, a, k: children
+    P.opaque_hooks["_griffe.agents.nodes.ast:ast_children"] = P.opaque_hooks["_griffe.agents.visitor:ast_children"]
+    visits = []
+
+    def expected_flag(child):
+        slot = child.fields.get("slot") if isinstance(child, SObj) else None
+        return G0 if slot == "orelse" else z3.Or(G0, tc)
+
+    def hook_visit(P_, a, k):
+        child = a[1]
+        if isinstance(child, SUnion):
+            child = P_.choose(child)
+        flag = zbool(v.fields["type_guarded"])
+        visits.append(child)
+        if child is test:
+            return None
+        P_.prove("child_visited_under_the_right_guard:" + str(child.fields.get("slot")), flag == expected_flag(child), slot=child.fields.get("slot"))
+        return None
+
+    def hook_generic(P_, a, k):
+        flag = zbool(v.fields["type_guarded"])
+        visits.append("all")
+        P_.prove("child_visited_under_the_right_guard:body", flag == z3.Or(G0, tc))
+        P_.prove("child_visited_under_the_right_guard:orelse", z3.Implies(no > 0, flag == G0))
+        return None
+    P.opaque_hooks[VS + "visit"] = hook_visit
+    P.opaque_hooks[VS + "generic_visit"] = hook_generic
+    q = VS + "visit_if"
+
+    def inv(P_, L, pre):
+        i = zint(L["__ichildren"])
+        return zbool(v.fields["type_guarded"]) == z3.If(i <= 1 + nb, z3.Or(G0, tc), G0)
+
+    def post_body(P_, before, after):
+        # exactly the iterated child was visited in this iteration
+        P_.prove("each_child_is_visited_exactly_once_in_order", len(visits) == 1 and isinstance(visits[0], SObj))
+    P.loop_specs[(q, 0)] = dict(mode="inv", name="children", inv=inv, post_body=post_body, havoc_fields=[(v, "type_guarded", lambda P_, nm: P_.fresh_bool(nm))])
+    kind, res = outcome(P, lambda: call(P, q, v, node))
+    if kind == "raise":
+        P.prove("never_raises", False, exc=P.resolve_cls(res))
+        return
+    P.prove("flag_restored_on_exit", zbool(v.fields["type_guarded"]) == G0)
+    P.cover("visit_if")
